@@ -1,4 +1,4 @@
-import DaskModel.Lemmas.SchedTop
+import DaskModel.Lemmas.SchedInit4
 /-!
 # C01 — local schedulers compute exactly the values the task graph denotes
 
@@ -13,9 +13,10 @@ Quantifiers of the statement ↦ Lean:
 * any completion order       ↦ `∀ choices : List Nat` (which outstanding batch completes next, at every iteration)
 * any priorities             ↦ `cfg.prio` arbitrary (ties allowed)
 
-The theorems take the hypothesis `StartOK` (the state built by `start_state_from_dask` satisfies the
-scheduler invariant).  It is discharged for every closed acyclic graph by `Dask.Sched.startState_ok`
-when `Lemmas/SchedInit.lean` is present; see the end of the file.
+The theorems of section `Run` take the hypothesis `StartOK` (the state built by `start_state_from_dask`
+satisfies the scheduler invariant); it is discharged for every closed graph by `Dask.Sched.startState_ok`
+(Lemmas/SchedInit*.lean, a loop-invariant proof for the explicit-stack traversal incl. sufficiency of the fuel).
+Section `Full` states the property without it: `start_ok`, `get_async_correct`.
 -/
 namespace Dask.C01
 open Dask.Sched
@@ -160,6 +161,66 @@ theorem accessible_jobs (h : Hyp cfg rank) (hs : StartOK cfg (den cfg P rank) st
     ¬ (!st0.waiting.isEmpty ∧ st0.ready.isEmpty) := hs.accessible rank h.acyclic
 
 end Run
+
+/-! ## the full statement (no hypothesis on the start state) -/
+section Full
+variable {cfg : Cfg} {P : Params α} {rank : Key → Nat}
+
+/-- `start_state_from_dask` never raises on a closed graph and its state satisfies the invariant -/
+theorem start_ok (h : Hyp cfg rank) (hG : GraphOK cfg.g cfg.results) :
+    ∃ st0, startState cfg P = .ok st0 ∧ StartOK cfg (den cfg P rank) st0 :=
+  startState_ok cfg P (den_fixpoint cfg P rank h) hG
+
+theorem startOK_of_eq (h : Hyp cfg rank) (hG : GraphOK cfg.g cfg.results) {st0 : State α}
+    (hst : startState cfg P = .ok st0) : StartOK cfg (den cfg P rank) st0 := by
+  obtain ⟨st1, h1, h2⟩ := start_ok (P := P) h hG
+  rw [hst] at h1
+  cases h1
+  exact h2
+
+/-- **C01, full**: for every closed acyclic graph (dependencies exist and are listed once, requested keys exist),
+every `num_workers ≥ 1`, `chunksize ∈ {-1} ∪ ℕ⁺`, arbitrary priorities, and EVERY order in which outstanding batches
+complete (`choices`), a whole `get_async` call
+* never raises an internal error (`KeyError`, `AssertionError`, `ZeroDivisionError`, `IndexError`, "Missing
+  dependency", "Found no accessible jobs") and never waits on an empty queue;
+* when it ends normally, `nested_get` of its final cache gives - in the nesting of the request - exactly the values of
+  the recursive evaluation of the graph;
+* it cannot still be running after more iterations than there are keys. -/
+theorem get_async_correct (h : Hyp cfg rank) (hG : GraphOK cfg.g cfg.results) (choices : List Nat) :
+    (∀ e, (getAsync cfg P choices).outcome = .error e → e = .badChoice) ∧
+    ((getAsync cfg P choices).outcome = .ok .done → ∀ req : Req, (∀ k ∈ req.flat, k ∈ cfg.results) →
+      nestedGet (getAsync cfg P choices).final.cache.get? req = nestedGet (fun k => some (den cfg P rank k)) req) ∧
+    (∀ st0, startState cfg P = .ok st0 → st0.dependencies.length < choices.length →
+      (getAsync cfg P choices).outcome ≠ .ok .starved) := by
+  obtain ⟨st0, hst, hs⟩ := start_ok (P := P) h hG
+  refine ⟨?_, fun hdone req hreq => getAsync_result h hst hs choices hdone req hreq, ?_⟩
+  · intro e he
+    rw [getAsync_eq hst (hs.accessible rank h.acyclic) choices] at he
+    cases hml : mainLoop cfg P choices (sys0 st0) with
+    | error e' =>
+      rw [hml] at he
+      simp only [Except.error.injEq] at he
+      subst he
+      exact sched_no_internal_error h hs choices e' hml
+    | ok r =>
+      obtain ⟨s', o⟩ := r
+      rw [hml] at he
+      cases o <;> cases he
+  · intro st1 hst1 hlen hstarved
+    rw [hst] at hst1
+    cases hst1
+    rw [getAsync_eq hst (hs.accessible rank h.acyclic) choices] at hstarved
+    cases hml : mainLoop cfg P choices (sys0 st0) with
+    | error e' => rw [hml] at hstarved; cases hstarved
+    | ok r =>
+      obtain ⟨s', o⟩ := r
+      rw [hml] at hstarved
+      have hne := sched_terminates h hs choices hlen s' o hml
+      cases o with
+      | done => cases hstarved
+      | starved => exact hne rfl
+      | failed k => cases hstarved
+end Full
 
 /-! ## non-vacuity: a diamond `0:data, 1:task[0], 2:task[0], 3:task[1,2]`, request `[3]`, two workers -/
 section Example
